@@ -5,7 +5,9 @@ cd "$(dirname "$0")"
 for d in seeded/*/; do
   sid=$(basename "$d")
   [ -f "$d/patch.diff" ] || continue
-  VERIF_WORKERS="${VERIF_WORKERS:-8}" ./tools_seeded.py detect "$sid" C08 C09 C14 C15 C17 C20 2>&1 | grep -E "^$sid " | cut -c1-160
+  checks="C08 C09 C14 C15 C17 C20"
+  [ -n "$OWN" ] && checks="${sid%%-*}"        # OWN=1: only the check of the property the change was written against
+  VERIF_WORKERS="${VERIF_WORKERS:-8}" ./tools_seeded.py detect "$sid" $checks 2>&1 | grep -E "^$sid " | cut -c1-160
 done
 mkdir -p /tmp/crossdetect_out && for d in seeded/*/; do cp "$d/meta.json" "/tmp/crossdetect_out/$(basename $d).json"; done
 echo CROSSDETECT-DONE
